@@ -39,11 +39,16 @@ def members_for(assignor, subs, previous=None, generation=1, generations=None):
     missed the last rebalance reports what it owned before, with that generation)."""
     from aiokafka.coordinator.protocol import ConsumerProtocolMemberMetadata
     out = {}
-    for m, topics in subs.items():
+    for mi, (m, topics) in enumerate(subs.items()):
         # the topics are listed in the order the caller gives (a member lists its subscription in set order, i.e. any
         # order; an earlier version sorted them here and so never exercised a non-alphabetical listing: seeded C15-c)
         if assignor.name == "sticky" and previous is not None and m in previous:
-            out[m] = assignor._metadata(list(topics), previous[m], (generations or {}).get(m, generation))
+            prev = list(previous[m])
+            if mi % 2:
+                # every other member reports its partitions interleaved by topic (t0-0, t1-0, t0-1, ...): a member may
+                # list what it owns in any order, e.g. the order a foreign leader's SyncGroup had them in (seeded C15-f)
+                prev.sort(key=lambda tp: (tp.partition, tp.topic))
+            out[m] = assignor._metadata(list(topics), prev, (generations or {}).get(m, generation))
         else:
             out[m] = ConsumerProtocolMemberMetadata(assignor.version, list(topics), b"")
     return out
